@@ -1,6 +1,7 @@
 /- line-protocol driver for the structure / observable model (C03) -/
 import GeckoModel.Model.DriverUtil
 import GeckoModel.Model.Struct
+import GeckoModel.Model.ObserverDispatch
 import GeckoModel.Generated.PacksIndex
 open GeckoModel GeckoModel.Generated Drv
 
@@ -10,8 +11,28 @@ def checksum (b : Block) : Nat :=
 def showNotif (cur : Block) (n : Notif) : String :=
   s!"{n.key}:{n.observer}:{showExceptValue n.old}>{showExceptValue n.new}:{if n.blockSeen == cur then 1 else 0}"
 
+open GeckoModel.ObserverDispatch in
+/-- `notify <live ids .-separated | -> <reactions id:kind:arg ;-separated | ->`  (kinds: u = unwatch arg, a = unwatch_all, w = watch arg) -/
+def notifyLine (live reacts : String) : String :=
+  let ids (t : String) : List Nat := if t == "-" then [] else (t.splitOn ".").filterMap (·.toNat?)
+  let table : List (Nat × React) := if reacts == "-" then [] else (reacts.splitOn ";").filterMap fun r =>
+    match r.splitOn ":" with
+    | [i, "u", a] => match i.toNat?, a.toNat? with
+      | some i, some a => some (i, React.unwatch a)
+      | _, _ => none
+    | [i, "a", _] => i.toNat?.map fun i => (i, React.unwatchAll)
+    | [i, "w", a] => match i.toNat?, a.toNat? with
+      | some i, some a => some (i, React.watch a)
+      | _, _ => none
+    | _ => none
+  let react (o : Nat) : React := ((table.find? (·.1 == o)).map (·.2)).getD .nothing
+  let r := notify react (ids live)
+  let sh (l : List Nat) : String := if l.isEmpty then "-" else ".".intercalate (l.map toString)
+  s!"called={sh r.1} live={sh r.2}"
+
 def step (s : StructState) (line : String) : StructState × String :=
   match line.trimAscii.toString.splitOn " " with
+  | ["notify", live, reacts] => (s, notifyLine live reacts)
   | ["new", c, l, h] =>
     match Packs.allModules.find? (·.file == c), Packs.allModules.find? (·.file == l), unhex h with
     | some cm, some lm, some b => (⟨b, mergeItems cm.items lm.items, []⟩, s!"ok {(mergeItems cm.items lm.items).length}")
